@@ -348,8 +348,9 @@ class Run(object):
               'coverage': self.cov, 'assumptions': self.assumptions,
               'wall_s': round(time.time() - self.t0, 2), 'violations': len(self.violations) + (1 if (self.signals and not self.violations) else 0)}
         ev['coverage']['known_findings_reported'] = [k for k, _ in self.known]
-        os.makedirs(os.path.join(VERIF, 'evidence'), exist_ok=True)
-        with open(os.path.join(VERIF, 'evidence', cid + '.json'), 'w') as f:
+        evdir = os.environ.get('VERIF_EVIDENCE_DIR', os.path.join(VERIF, 'evidence'))   # seed evaluations write elsewhere
+        os.makedirs(evdir, exist_ok=True)
+        with open(os.path.join(evdir, cid + '.json'), 'w') as f:
             json.dump(ev, f, indent=1, default=str)
         for l in lines:
             print(l)
